@@ -133,15 +133,22 @@ def arityErrors (op : SOp) : List (String × Int) :=
   if np < nt then [(s!"too many args to {name} (expected {np})", op.loc)]
   else if np > nt then [(s!"too few args to {name} (expected {np})", op.loc)] else []
 
+/-- the word that an OPCODE operand names: a literal, or a constant that is in scope -/
+def opcodeWord (toks : List Tok) (tab : SymTab) : Option Int :=
+  match toks with
+  | [.int v] => some v
+  | [.sym s] => (match tab.get? (.str s) with | some (.const v) => some v | _ => none)
+  | _ => none
+
 /-- the error `OPCODE.typecheck` may add -/
-def opcodeErrors (op : SOp) (assemblyOnly : Bool) : List (String × Int) :=
+def opcodeErrors (op : SOp) (tab : SymTab) (assemblyOnly : Bool) : List (String × Int) :=
   if op.cls = .OPCODE then
-    match op.toks with
-    | [.int v] =>
+    match opcodeWord op.toks tab with
+    | some v =>
       match Enc.disassemble v assemblyOnly with
       | .ok _ => []
       | .error _ => if assemblyOnly then [] else [("not a HERA instruction", tokLoc op.loc 0)]
-    | _ => []
+    | none => []
   else []
 
 /-- the warnings that the `typecheck` overrides of CALL / RETURN / NOT add -/
@@ -165,7 +172,7 @@ def opWarnings (op : SOp) : List (String × Int) :=
 /-- `op.typecheck(symbol_table, assembly_only=...)`: `AbstractOperation.typecheck` (arity, then `check_arglist`)
     plus the overrides (OPCODE may add an error; CALL, RETURN, NOT only warn). -/
 def typecheckOp (op : SOp) (tab : SymTab) (assemblyOnly : Bool) : Msgs :=
-  { errors := arityErrors op ++ (checkArglist op.cls.P op.toks tab op.loc).errors ++ opcodeErrors op assemblyOnly,
+  { errors := arityErrors op ++ (checkArglist op.cls.P op.toks tab op.loc).errors ++ opcodeErrors op tab assemblyOnly,
     warnings := opWarnings op }
 
 /-! ### checker.py -/
@@ -233,7 +240,11 @@ def getLabels (prog : List SOp) (st : CSettings) : SymTab × Msgs :=
       else if op.cls = .CONSTANT then
         (match args with
          | [k, .int v] => { s with consts := (k, v) :: s.consts }
-         | _ => s, false)           -- Constant("text") raises ValueError, suppressed (numeric strings are not modelled)
+         | [k, x] =>                -- `constants.get(x, x)`: the value of an already declared constant ...
+           (match s.consts.find? (fun p => p.1 == x) with
+            | some p => { s with consts := (k, p.2) :: s.consts }
+            | none => s)            -- ... else Constant("text") raises ValueError, suppressed (numeric strings are not modelled)
+         | _ => s, false)
       else if op.cls = .INTEGER then ({ s with dc := s.dc + 1 }, false)
       else if op.cls = .LP_STRING then
         (match args with | [.str x] => { s with dc := s.dc + x.length + 1 } | _ => s, false)
@@ -250,11 +261,16 @@ def getLabels (prog : List SOp) (st : CSettings) : SymTab × Msgs :=
   let s := prog.foldl step { dc := st.data_start }
   (s.tab, s.msgs)
 
-def looksLikeConstant (op : SOp) : Option (Val × Int) :=
+/-- `looks_like_a_CONSTANT` and the value that `typecheck` enters for it: a literal, or the value of a constant that is
+    in scope (anything else has been reported as an error and counts as 0) -/
+def looksLikeConstant (op : SOp) (tab : SymTab) : Option (Val × Int) :=
   if op.cls = .CONSTANT then
+    let symVal (m : Str) : Int := match tab.get? (.str m) with | some (.const v) => v | _ => 0
     match op.toks with
     | [.sym s, .int v] => some (.str s, v)
     | [.str s, .int v] => some (.str s, v)
+    | [.sym s, .sym m] => some (.str s, symVal m)
+    | [.str s, .sym m] => some (.str s, symVal m)
     | _ => none
   else none
 
@@ -287,7 +303,7 @@ def typecheck (prog : List SOp) (st : CSettings) : SymTab × Msgs :=
     let m := if !st.allow_interrupts && isInterrupt op tab then m.err s!"hera-py does not support {op.cls.pyName}" op.loc else m
     let m := if st.no_debug_ops && op.cls.isDebuggingOp then
       m.err "debugging instructions disallowed with --no-debug-ops flag" op.loc else m
-    let tab := match looksLikeConstant op with
+    let tab := match looksLikeConstant op tab with
       | some (k, v) => tab.set k (.const (if outOfRange v then 0 else v))
       | none => tab
     (tab, m, seenCode)
